@@ -419,14 +419,19 @@ Proof.
 Qed.
 
 (* ------------------------------------------------------------------ the experiment kernel in closed form *)
-Definition exp_closed (rounds : list Z) (h : bool) (data anc : list Z) (reps : Z) : RepetitionExperimentKernel :=
-  MkRepetitionExperimentKernel (kernels_from h data anc 0 rounds)
-    (MkQutritCalibrationIndexKernel h (total_len h rounds) (data ++ anc)) reps.
+(* the proofs below are about the code AFTER the fix of finding F15: indexing_kernels reads qutrit_calibration_points *)
+Lemma honours_flag : experiment_kernel_honours_calibration_flag = true.
+Proof. reflexivity. Qed.
 
-Definition cycle_len (rounds : list Z) (h : bool) : Z := total_len h rounds + 3 * dh h + 3.
+Definition exp_closed (rounds : list Z) (h c : bool) (data anc : list Z) (reps : Z) : RepetitionExperimentKernel :=
+  MkRepetitionExperimentKernel (kernels_from h data anc 0 rounds)
+    (MkQutritCalibrationIndexKernel h (total_len h rounds) (data ++ anc)) reps c.
+
+(* cycle length: the repetition kernels, plus the calibration kernel when the experiment has calibration points *)
+Definition cycle_len (rounds : list Z) (h c : bool) : Z := total_len h rounds + (if c then 3 * dh h + 3 else 0).
 
 Lemma experiment_kernel_closed rounds h c data anc reps :
-  rounds <> [] -> experiment_kernel rounds h c data anc reps = Value (exp_closed rounds h data anc reps).
+  rounds <> [] -> experiment_kernel rounds h c data anc reps = Value (exp_closed rounds h c data anc reps).
 Proof.
   intros Hne. unfold experiment_kernel, exp_closed. rewrite init_kernels_closed. cbn [start_after].
   rewrite last_opt_kernels_from. destruct rounds as [|r t]; [congruence|].
@@ -440,44 +445,61 @@ Lemma experiment_kernel_empty h c data anc reps : experiment_kernel [] h c data 
 Proof. reflexivity. Qed.
 
 Lemma experiment_kernel_inv rounds h c data anc reps e :
-  experiment_kernel rounds h c data anc reps = Value e -> rounds <> [] /\ e = exp_closed rounds h data anc reps.
+  experiment_kernel rounds h c data anc reps = Value e -> rounds <> [] /\ e = exp_closed rounds h c data anc reps.
 Proof.
   intros H. destruct rounds as [|r t]; [discriminate|]. split; [congruence|].
   rewrite experiment_kernel_closed in H by congruence. congruence.
 Qed.
 
-Lemma exp_start rounds h data anc reps : RepetitionExperimentKernel_start_index (exp_closed rounds h data anc reps) = 0.
-Proof.
-  cbv [RepetitionExperimentKernel_start_index RepetitionExperimentKernel_indexing_kernels exp_closed
-       RepetitionExperimentKernel__repetition_kernels RepetitionExperimentKernel__calibration_kernel].
-  destruct rounds as [|r t]; reflexivity.
-Qed.
-
-Lemma exp_cycle_length rounds h data anc reps :
-  RepetitionExperimentKernel_kernel_cycle_length (exp_closed rounds h data anc reps) = cycle_len rounds h.
-Proof.
-  cbv [RepetitionExperimentKernel_kernel_cycle_length RepetitionExperimentKernel_indexing_kernels exp_closed
-       RepetitionExperimentKernel__repetition_kernels RepetitionExperimentKernel__calibration_kernel].
-  cbn [map]. rewrite last_last.
-  assert (E : IIndexingKernel_start_index
-                (hd IIndexingKernel_default
-                   (map RepetitionIndexKernel_as_IIndexingKernel (kernels_from h data anc 0 rounds)
-                    ++ [QutritCalibrationIndexKernel_as_IIndexingKernel
-                          (MkQutritCalibrationIndexKernel h (total_len h rounds) (data ++ anc))])) = 0).
-  { destruct rounds as [|r t]; reflexivity. }
-  rewrite E. cbv [QutritCalibrationIndexKernel_as_IIndexingKernel IIndexingKernel_stop_index]. rewrite cal_stop.
-  unfold cycle_len. lia.
-Qed.
-
-Lemma cycle_len_pos rounds h : 3 <= cycle_len rounds h.
-Proof. unfold cycle_len, dh. pose proof (total_len_nonneg h rounds). destruct h; lia. Qed.
-
-Lemma exp_indexing_contiguous rounds h data anc reps :
-  contiguous_from 0 (RepetitionExperimentKernel_indexing_kernels (exp_closed rounds h data anc reps)).
+(* the kernels of the cycle: the calibration kernel only when the flag is set *)
+Lemma exp_indexing rounds h c data anc reps :
+  RepetitionExperimentKernel_indexing_kernels (exp_closed rounds h c data anc reps)
+  = map RepetitionIndexKernel_as_IIndexingKernel (kernels_from h data anc 0 rounds)
+    ++ (if c then [QutritCalibrationIndexKernel_as_IIndexingKernel (MkQutritCalibrationIndexKernel h (total_len h rounds) (data ++ anc))]
+        else []).
 Proof.
   cbv [RepetitionExperimentKernel_indexing_kernels exp_closed RepetitionExperimentKernel__repetition_kernels
-       RepetitionExperimentKernel__calibration_kernel]. cbn [map].
-  apply kernels_from_contiguous. cbn [contiguous_from Z.add].
+       RepetitionExperimentKernel__calibration_kernel RepetitionExperimentKernel__qutrit_calibration_points].
+  destruct c; reflexivity.
+Qed.
+
+Lemma last_kernels_from_stop h d a s r t :
+  IIndexingKernel_stop_index (last (map RepetitionIndexKernel_as_IIndexingKernel (kernels_from h d a s (r :: t))) IIndexingKernel_default)
+  = s + total_len h (r :: t) - 1.
+Proof.
+  revert s r; induction t as [|r2 t2 IH]; intros s r.
+  - cbn [kernels_from map last total_len]. cbv [RepetitionIndexKernel_as_IIndexingKernel IIndexingKernel_stop_index]. rewrite rep_stop. lia.
+  - cbn [kernels_from map]. cbn [kernels_from map] in IH.
+    change (last (?x :: ?y :: ?l) ?d) with (last (y :: l) d). rewrite IH. cbn [total_len]. lia.
+Qed.
+
+Lemma exp_start rounds h c data anc reps : RepetitionExperimentKernel_start_index (exp_closed rounds h c data anc reps) = 0.
+Proof.
+  cbv [RepetitionExperimentKernel_start_index]. rewrite exp_indexing. destruct rounds as [|r t], c; reflexivity.
+Qed.
+
+Lemma exp_cycle_length rounds h c data anc reps :
+  rounds <> [] -> RepetitionExperimentKernel_kernel_cycle_length (exp_closed rounds h c data anc reps) = cycle_len rounds h c.
+Proof.
+  intros Hne. cbv [RepetitionExperimentKernel_kernel_cycle_length]. rewrite exp_indexing.
+  destruct rounds as [|r t]; [congruence|]. unfold cycle_len. destruct c.
+  - rewrite last_last. cbn [kernels_from map app hd].
+    cbv [QutritCalibrationIndexKernel_as_IIndexingKernel RepetitionIndexKernel_as_IIndexingKernel IIndexingKernel_stop_index IIndexingKernel_start_index].
+    rewrite cal_stop. cbn [RepetitionIndexKernel_start_index]. lia.
+  - rewrite app_nil_r, last_kernels_from_stop. cbn [kernels_from map hd].
+    cbv [RepetitionIndexKernel_as_IIndexingKernel IIndexingKernel_start_index]. cbn [RepetitionIndexKernel_start_index]. lia.
+Qed.
+
+Lemma cycle_len_nonneg rounds h c : 0 <= cycle_len rounds h c.
+Proof. unfold cycle_len, dh. pose proof (total_len_nonneg h rounds). destruct c, h; lia. Qed.
+
+Lemma cycle_len_pos rounds h c : rounds <> [] -> 1 <= cycle_len rounds h c.
+Proof. intros H. unfold cycle_len, dh. pose proof (total_len_pos h rounds H). destruct c, h; lia. Qed.
+
+Lemma exp_indexing_contiguous rounds h c data anc reps :
+  contiguous_from 0 (RepetitionExperimentKernel_indexing_kernels (exp_closed rounds h c data anc reps)).
+Proof.
+  rewrite exp_indexing. apply kernels_from_contiguous. destruct c; cbn [contiguous_from Z.add]; [|exact I].
   cbv [QutritCalibrationIndexKernel_as_IIndexingKernel IIndexingKernel_kernel_length].
   cbn [IIndexingKernel_start_index IIndexingKernel_stop_index QutritCalibrationIndexKernel_start_index].
   rewrite cal_stop. unfold dh. destruct h; repeat split; lia.
@@ -499,14 +521,12 @@ Proof.
   rewrite rep_stop. cbn [RepetitionIndexKernel_start_index]. lia.
 Qed.
 
-Lemma exp_cycle_is_sum rounds h data anc reps :
-  sum_lengths (RepetitionExperimentKernel_indexing_kernels (exp_closed rounds h data anc reps)) = cycle_len rounds h.
+Lemma exp_cycle_is_sum rounds h c data anc reps :
+  sum_lengths (RepetitionExperimentKernel_indexing_kernels (exp_closed rounds h c data anc reps)) = cycle_len rounds h c.
 Proof.
-  cbv [RepetitionExperimentKernel_indexing_kernels exp_closed RepetitionExperimentKernel__repetition_kernels
-       RepetitionExperimentKernel__calibration_kernel]. cbn [map].
-  rewrite sum_lengths_app, sum_lengths_kernels_from. cbn [sum_lengths].
+  rewrite exp_indexing, sum_lengths_app, sum_lengths_kernels_from. unfold cycle_len. destruct c; cbn [sum_lengths]; [|lia].
   cbv [QutritCalibrationIndexKernel_as_IIndexingKernel IIndexingKernel_kernel_length IIndexingKernel_start_index IIndexingKernel_stop_index].
-  rewrite cal_stop. cbn [QutritCalibrationIndexKernel_start_index]. unfold cycle_len. lia.
+  rewrite cal_stop. cbn [QutritCalibrationIndexKernel_start_index]. lia.
 Qed.
 
 (* ------------------------------------------------------------------ C12: kernels contiguous *)
@@ -514,6 +534,9 @@ Lemma kernels_contiguous rounds h c data anc reps :
   rounds <> [] ->
   exists e, experiment_kernel rounds h c data anc reps = Value e
     /\ map RepetitionIndexKernel_nr_repeated_parities (RepetitionExperimentKernel__repetition_kernels e) = rounds
+    /\ RepetitionExperimentKernel_indexing_kernels e
+        = map RepetitionIndexKernel_as_IIndexingKernel (RepetitionExperimentKernel__repetition_kernels e)
+          ++ (if c then [QutritCalibrationIndexKernel_as_IIndexingKernel (RepetitionExperimentKernel__calibration_kernel e)] else [])
     /\ contiguous_from 0 (RepetitionExperimentKernel_indexing_kernels e)
     /\ RepetitionExperimentKernel_start_index e = 0
     /\ RepetitionExperimentKernel_kernel_cycle_length e = sum_lengths (RepetitionExperimentKernel_indexing_kernels e)
@@ -522,9 +545,9 @@ Lemma kernels_contiguous rounds h c data anc reps :
                                                 (MkRepetitionIndexKernel 0 false 0 [] [])) + 1
     /\ RepetitionExperimentKernel_experiment_repetitions e = reps.
 Proof.
-  intros Hne. exists (exp_closed rounds h data anc reps). split; [apply experiment_kernel_closed; exact Hne|].
-  split; [apply kernels_from_rounds|]. split; [apply exp_indexing_contiguous|]. split; [apply exp_start|].
-  split; [rewrite exp_cycle_length, exp_cycle_is_sum; reflexivity|]. split; [|reflexivity].
+  intros Hne. exists (exp_closed rounds h c data anc reps). split; [apply experiment_kernel_closed; exact Hne|].
+  split; [apply kernels_from_rounds|]. split; [apply exp_indexing|]. split; [apply exp_indexing_contiguous|]. split; [apply exp_start|].
+  split; [rewrite exp_cycle_length, exp_cycle_is_sum by exact Hne; reflexivity|]. split; [|reflexivity].
   cbn [exp_closed RepetitionExperimentKernel__calibration_kernel RepetitionExperimentKernel__repetition_kernels
        QutritCalibrationIndexKernel_start_index].
   pose proof (last_opt_kernels_from h data anc 0 rounds) as HL.
@@ -595,26 +618,32 @@ Proof.
     rewrite cal_contains_In in Hx.
     assert (HIn : In x (calibration_indices (MkQutritCalibrationIndexKernel h (total_len h rounds) (data ++ anc)) q)) by tauto.
     exact (incr_in_sub _ _ _ _ (cal_kernel_incr h _ (data ++ anc) q) HIn).
-  - intros x Hx. rewrite exp_start, exp_cycle_length.
-    unfold cycle_indices in Hx. cbn [exp_closed RepetitionExperimentKernel__repetition_kernels RepetitionExperimentKernel__calibration_kernel] in Hx.
+  - intros x Hx. rewrite exp_start, exp_cycle_length by exact Hne.
+    unfold cycle_indices in Hx.
+    cbn [exp_closed RepetitionExperimentKernel__repetition_kernels RepetitionExperimentKernel__calibration_kernel
+         RepetitionExperimentKernel__qutrit_calibration_points] in Hx.
     apply in_app_or in Hx. destruct Hx as [Hx|Hx].
-    + pose proof (incr_in_sub _ _ _ _ (kernels_from_incr h data anc 0 rounds q) Hx). unfold cycle_len, dh. destruct h; lia.
-    + pose proof (incr_in_sub _ _ _ _ (cal_kernel_incr h (total_len h rounds) (data ++ anc) q) Hx) as H.
+    + pose proof (incr_in_sub _ _ _ _ (kernels_from_incr h data anc 0 rounds q) Hx). unfold cycle_len, dh. destruct c, h; lia.
+    + destruct c; [|destruct Hx].
+      pose proof (incr_in_sub _ _ _ _ (cal_kernel_incr h (total_len h rounds) (data ++ anc) q) Hx) as H.
       rewrite cal_stop in H. cbn [QutritCalibrationIndexKernel_start_index] in H.
       pose proof (total_len_nonneg h rounds). unfold cycle_len. lia.
 Qed.
 
 (* ------------------------------------------------------------------ C12: categories of one qubit pairwise disjoint *)
-Lemma exp_cycle_incr rounds h data anc reps q :
-  incr_in 0 (cycle_len rounds h - 1) (cycle_indices (exp_closed rounds h data anc reps) q).
+Lemma exp_cycle_incr rounds h c data anc reps q :
+  incr_in 0 (cycle_len rounds h c - 1) (cycle_indices (exp_closed rounds h c data anc reps) q).
 Proof.
-  unfold cycle_indices. cbn [exp_closed RepetitionExperimentKernel__repetition_kernels RepetitionExperimentKernel__calibration_kernel].
-  apply (incr_in_app 0 (0 + total_len h rounds - 1)).
-  - apply kernels_from_incr.
-  - pose proof (cal_kernel_incr h (total_len h rounds) (data ++ anc) q) as H. cbv zeta in H. rewrite cal_stop in H.
+  unfold cycle_indices.
+  cbn [exp_closed RepetitionExperimentKernel__repetition_kernels RepetitionExperimentKernel__calibration_kernel
+       RepetitionExperimentKernel__qutrit_calibration_points].
+  pose proof (kernels_from_incr h data anc 0 rounds q) as Hk. unfold cycle_len. destruct c.
+  - apply (incr_in_app 0 (0 + total_len h rounds - 1)); [exact Hk|].
+    pose proof (cal_kernel_incr h (total_len h rounds) (data ++ anc) q) as H. cbv zeta in H. rewrite cal_stop in H.
     cbn [QutritCalibrationIndexKernel_start_index] in H.
     replace (0 + total_len h rounds - 1 + 1) with (total_len h rounds) by lia.
-    replace (cycle_len rounds h - 1) with (total_len h rounds + 3 * dh h + 2) by (unfold cycle_len; lia). exact H.
+    replace (total_len h rounds + (3 * dh h + 3) - 1) with (total_len h rounds + 3 * dh h + 2) by lia. exact H.
+  - rewrite app_nil_r. replace (total_len h rounds + 0 - 1) with (0 + total_len h rounds - 1) by lia. exact Hk.
 Qed.
 
 (* translates of a block that fits in [0, L-1] by multiples of L stay strictly increasing *)
@@ -632,19 +661,19 @@ Proof.
       replace (a + Z.of_nat (S n)) with (a + 1 + Z.of_nat n) by lia. apply IH.
 Qed.
 
-Lemma exp_all_incr rounds h data anc reps q :
-  0 <= reps ->
-  incr_in 0 (reps * cycle_len rounds h - 1) (all_indices (exp_closed rounds h data anc reps) q).
+Lemma exp_all_incr rounds h c data anc reps q :
+  rounds <> [] -> 0 <= reps ->
+  incr_in 0 (reps * cycle_len rounds h c - 1) (all_indices (exp_closed rounds h c data anc reps) q).
 Proof.
-  intros Hr. unfold all_indices. rewrite exp_cycle_length.
+  intros Hne Hr. unfold all_indices. rewrite exp_cycle_length by exact Hne.
   cbv [RepetitionExperimentKernel_create_sliced_array RepetitionExperimentKernel_create_sliced_arrays
        RepetitionExperimentKernel_experiment_repetitions exp_closed RepetitionExperimentKernel__repetitions].
-  fold (exp_closed rounds h data anc reps).
-  pose proof (cycle_len_pos rounds h) as HL.
-  pose proof (sliced_incr (cycle_len rounds h) (cycle_indices (exp_closed rounds h data anc reps) q) 0 (Z.to_nat (reps - 0))
-                (exp_cycle_incr rounds h data anc reps q) ltac:(lia)) as H.
-  replace (0 * cycle_len rounds h) with 0 in H by lia.
-  replace ((0 + Z.of_nat (Z.to_nat (reps - 0))) * cycle_len rounds h - 1) with (reps * cycle_len rounds h - 1) in H by (f_equal; f_equal; lia).
+  fold (exp_closed rounds h c data anc reps).
+  pose proof (cycle_len_nonneg rounds h c) as HL.
+  pose proof (sliced_incr (cycle_len rounds h c) (cycle_indices (exp_closed rounds h c data anc reps) q) 0 (Z.to_nat (reps - 0))
+                (exp_cycle_incr rounds h c data anc reps q) HL) as H.
+  replace (0 * cycle_len rounds h c) with 0 in H by lia.
+  replace ((0 + Z.of_nat (Z.to_nat (reps - 0))) * cycle_len rounds h c - 1) with (reps * cycle_len rounds h c - 1) in H by (f_equal; f_equal; lia).
   exact H.
 Qed.
 
@@ -655,10 +684,10 @@ Lemma categories_disjoint rounds h c data anc reps e q :
   /\ (0 <= reps -> NoDup (all_indices e q)
                    /\ incr_in 0 (reps * RepetitionExperimentKernel_kernel_cycle_length e - 1) (all_indices e q)).
 Proof.
-  intros He. apply experiment_kernel_inv in He. destruct He as [Hne ->]. rewrite exp_cycle_length.
-  pose proof (exp_cycle_incr rounds h data anc reps q) as H1.
+  intros He. apply experiment_kernel_inv in He. destruct He as [Hne ->]. rewrite exp_cycle_length by exact Hne.
+  pose proof (exp_cycle_incr rounds h c data anc reps q) as H1.
   split; [exact (incr_in_NoDup _ _ _ H1)|]. split; [exact H1|].
-  intros Hr. pose proof (exp_all_incr rounds h data anc reps q Hr) as H2.
+  intros Hr. pose proof (exp_all_incr rounds h c data anc reps q Hne Hr) as H2.
   split; [exact (incr_in_NoDup _ _ _ H2) | exact H2].
 Qed.
 
@@ -702,15 +731,19 @@ Proof.
     cbn [RepetitionIndexKernel_nr_repeated_parities] in Hr. exact (rep_kernel_ancilla_cover r h s' data anc q Ha Hr).
   - cbv zeta. cbn [exp_closed RepetitionExperimentKernel__calibration_kernel QutritCalibrationIndexKernel_start_index].
     rewrite Hcal, cal_stop. f_equal. lia.
-  - intros Hall. rewrite exp_cycle_length.
-    assert (Hc : cycle_indices (exp_closed rounds h data anc reps) q = zrange 0 (cycle_len rounds h)).
-    { unfold cycle_indices. cbn [exp_closed RepetitionExperimentKernel__repetition_kernels RepetitionExperimentKernel__calibration_kernel].
-      rewrite (kernels_from_cover h data anc 0 rounds q Ha Hall), Hcal.
-      pose proof (total_len_nonneg h rounds). unfold cycle_len. rewrite zrange_app by (unfold dh; destruct h; lia). f_equal. }
-    split; [exact Hc|]. intros Hr. unfold all_indices. rewrite Hc, exp_cycle_length.
+  - intros Hall. rewrite exp_cycle_length by exact Hne.
+    assert (Hc : cycle_indices (exp_closed rounds h c data anc reps) q = zrange 0 (cycle_len rounds h c)).
+    { unfold cycle_indices.
+      cbn [exp_closed RepetitionExperimentKernel__repetition_kernels RepetitionExperimentKernel__calibration_kernel
+           RepetitionExperimentKernel__qutrit_calibration_points].
+      rewrite (kernels_from_cover h data anc 0 rounds q Ha Hall).
+      pose proof (total_len_nonneg h rounds). unfold cycle_len. destruct c.
+      - rewrite Hcal. rewrite zrange_app by (unfold dh; destruct h; lia). f_equal. lia.
+      - rewrite app_nil_r. f_equal. lia. }
+    split; [exact Hc|]. intros Hr. unfold all_indices. rewrite Hc, exp_cycle_length by exact Hne.
     cbv [RepetitionExperimentKernel_create_sliced_array RepetitionExperimentKernel_create_sliced_arrays
          RepetitionExperimentKernel_experiment_repetitions exp_closed RepetitionExperimentKernel__repetitions].
-    pose proof (cycle_len_pos rounds h). unfold zrange at 2. rewrite sliced_zrange by lia. f_equal; lia.
+    pose proof (cycle_len_nonneg rounds h c). unfold zrange at 2. rewrite sliced_zrange by lia. f_equal; lia.
 Qed.
 
 (* ------------------------------------------------------------------ C12: the documented gap of a 0-round block *)
@@ -766,18 +799,19 @@ Lemma repetition_translate rounds h c data anc reps e q :
      /\ RepetitionExperimentKernel_get_stabilizer_and_projected_cycle_acquisition_indices e q n = []
      /\ RepetitionExperimentKernel_get_projected_cycle_acquisition_indices e q n = [])
   /\ (let ck := RepetitionExperimentKernel__calibration_kernel e in
+     let sliced := fun base => if c then concat (translates base L reps) else [] in   (* no calibration points: nothing *)
      RepetitionExperimentKernel_get_heralded_calibration_acquisition_indices e q StateKey_STATE_0
-       = concat (translates (QutritCalibrationIndexKernel_get_heralded_state_0_measurement_index ck q) L reps)
+       = sliced (QutritCalibrationIndexKernel_get_heralded_state_0_measurement_index ck q)
      /\ RepetitionExperimentKernel_get_heralded_calibration_acquisition_indices e q StateKey_STATE_1
-       = concat (translates (QutritCalibrationIndexKernel_get_heralded_state_1_measurement_index ck q) L reps)
+       = sliced (QutritCalibrationIndexKernel_get_heralded_state_1_measurement_index ck q)
      /\ RepetitionExperimentKernel_get_heralded_calibration_acquisition_indices e q StateKey_STATE_2
-       = concat (translates (QutritCalibrationIndexKernel_get_heralded_state_2_measurement_index ck q) L reps)
+       = sliced (QutritCalibrationIndexKernel_get_heralded_state_2_measurement_index ck q)
      /\ RepetitionExperimentKernel_get_projected_calibration_acquisition_indices e q StateKey_STATE_0
-       = concat (translates (QutritCalibrationIndexKernel_get_state_0_measurement_index ck q) L reps)
+       = sliced (QutritCalibrationIndexKernel_get_state_0_measurement_index ck q)
      /\ RepetitionExperimentKernel_get_projected_calibration_acquisition_indices e q StateKey_STATE_1
-       = concat (translates (QutritCalibrationIndexKernel_get_state_1_measurement_index ck q) L reps)
+       = sliced (QutritCalibrationIndexKernel_get_state_1_measurement_index ck q)
      /\ RepetitionExperimentKernel_get_projected_calibration_acquisition_indices e q StateKey_STATE_2
-       = concat (translates (QutritCalibrationIndexKernel_get_state_2_measurement_index ck q) L reps))
+       = sliced (QutritCalibrationIndexKernel_get_state_2_measurement_index ck q))
   /\ all_indices e q = concat (translates (cycle_indices e q) L reps).
 Proof.
   intros He. apply experiment_kernel_inv in He. destruct He as [Hne ->]. cbv zeta.
@@ -796,7 +830,7 @@ Proof.
     rewrite (find_none RepetitionIndexKernel_nr_repeated_parities _ n);
       [| cbn [exp_closed RepetitionExperimentKernel__repetition_kernels]; rewrite kernels_from_rounds; exact Hn].
     repeat split; reflexivity.
-  - repeat split; reflexivity.
+  - destruct c; repeat split; reflexivity.
   - reflexivity.
 Qed.
 
@@ -831,23 +865,11 @@ Proof.
   - rewrite app_nil_r. reflexivity.
 Qed.
 
-Definition est_len (rounds : list Z) (h c : bool) : Z := total_len h rounds + (if c then 3 * dh h + 3 else 0).
-
-Lemma last_kernels_from_stop h d a s r t :
-  IIndexingKernel_stop_index (last (map RepetitionIndexKernel_as_IIndexingKernel (kernels_from h d a s (r :: t))) IIndexingKernel_default)
-  = s + total_len h (r :: t) - 1.
-Proof.
-  revert s r; induction t as [|r2 t2 IH]; intros s r.
-  - cbn [kernels_from map last total_len]. cbv [RepetitionIndexKernel_as_IIndexingKernel IIndexingKernel_stop_index]. rewrite rep_stop. lia.
-  - cbn [kernels_from map]. cbn [kernels_from map] in IH.
-    change (last (?x :: ?y :: ?l) ?d) with (last (y :: l) d). rewrite IH. cbn [total_len]. lia.
-Qed.
-
 Lemma estimate_cycle_length_closed rounds h c :
-  rounds <> [] -> estimate_cycle_length rounds h c = Value (est_len rounds h c).
+  rounds <> [] -> estimate_cycle_length rounds h c = Value (cycle_len rounds h c).
 Proof.
   intros Hne. unfold estimate_cycle_length. rewrite estimate_indexing_closed by exact Hne.
-  destruct rounds as [|r t]; [congruence|]. f_equal. unfold est_len. destruct c.
+  destruct rounds as [|r t]; [congruence|]. f_equal. unfold cycle_len. destruct c.
   - rewrite last_last. cbn [kernels_from map app hd].
     cbv [QutritCalibrationIndexKernel_as_IIndexingKernel RepetitionIndexKernel_as_IIndexingKernel IIndexingKernel_stop_index IIndexingKernel_start_index].
     rewrite cal_stop. cbn [RepetitionIndexKernel_start_index]. lia.
@@ -855,54 +877,60 @@ Proof.
     cbv [RepetitionIndexKernel_as_IIndexingKernel IIndexingKernel_start_index]. cbn [RepetitionIndexKernel_start_index]. lia.
 Qed.
 
-Lemma est_len_pos rounds h c : rounds <> [] -> 1 <= est_len rounds h c.
-Proof. intros H. unfold est_len, dh. pose proof (total_len_pos h rounds H). destruct c, h; lia. Qed.
-
 Ltac Zify.zify_post_hook ::= Z.to_euclidean_division_equations.
 
 Lemma estimate_spec rounds h c size n :
   rounds <> [] ->
-  (estimate_experiment_repetitions rounds h c size = Value n <-> size = n * est_len rounds h c).
+  (estimate_experiment_repetitions rounds h c size = Value n <-> size = n * cycle_len rounds h c).
 Proof.
-  intros Hne. pose proof (estimate_cycle_length_closed rounds h c Hne) as HL. pose proof (est_len_pos rounds h c Hne) as Hp.
+  intros Hne. pose proof (estimate_cycle_length_closed rounds h c Hne) as HL. pose proof (cycle_len_pos rounds h c Hne) as Hp.
   unfold estimate_experiment_repetitions. unfold estimate_cycle_length in HL.
   destruct (estimate_indexing_kernels rounds h c) as [iks|]; [|discriminate].
   injection HL as HL. cbv [RepetitionExperimentKernel_estimate_tail]. rewrite HL.
-  set (L := est_len rounds h c) in *.
-  (* the quotient is Z.quot for `int(a / b)` and Z.div for `a // b`; both are exact on multiples *)
+  set (L := cycle_len rounds h c) in *.
+  (* the quotient is Z.div for `a // b` (and Z.quot for a former `int(a / b)`); both are exact on multiples *)
   match goal with |- context [Z.eqb size ?rhs] => destruct (Z.eqb_spec size rhs) as [E|E] end.
   - split; [intros H; injection H as <-; exact E|]. intros ->. f_equal. rewrite ?Z.quot_mul, ?Z.div_mul by lia. reflexivity.
   - split; [discriminate|]. intros ->. exfalso. apply E. rewrite ?Z.quot_mul, ?Z.div_mul by lia. reflexivity.
 Qed.
 
-Lemma estimate_inverts rounds h c :
+(* the estimate inverts dataset size = repetitions x kernel_cycle_length of the experiment kernel built from the same description,
+   for both values of the calibration flag *)
+Lemma estimate_inverts rounds h c data anc reps :
   rounds <> [] ->
-  exists L, estimate_cycle_length rounds h c = Value L /\ 1 <= L
-    /\ (forall reps, estimate_experiment_repetitions rounds h c (reps * L) = Value reps)
-    /\ (forall size n, estimate_experiment_repetitions rounds h c size = Value n <-> size = n * L)
-    /\ (forall size, (forall n, size <> n * L) -> estimate_experiment_repetitions rounds h c size = Raised AssertionError)
-    /\ (c = true -> forall data anc reps e, experiment_kernel rounds h c data anc reps = Value e ->
-        RepetitionExperimentKernel_kernel_cycle_length e = L).
+  exists e, experiment_kernel rounds h c data anc reps = Value e
+    /\ 1 <= RepetitionExperimentKernel_kernel_cycle_length e
+    /\ estimate_cycle_length rounds h c = Value (RepetitionExperimentKernel_kernel_cycle_length e)
+    /\ estimate_experiment_repetitions rounds h c (reps * RepetitionExperimentKernel_kernel_cycle_length e) = Value reps
+    /\ (forall size n, estimate_experiment_repetitions rounds h c size = Value n
+                       <-> size = n * RepetitionExperimentKernel_kernel_cycle_length e)
+    /\ (forall size, (forall n, size <> n * RepetitionExperimentKernel_kernel_cycle_length e) ->
+                     estimate_experiment_repetitions rounds h c size = Raised AssertionError).
 Proof.
-  intros Hne. exists (est_len rounds h c). split; [apply estimate_cycle_length_closed; exact Hne|].
-  split; [apply est_len_pos; exact Hne|]. split; [|split; [|split]].
-  - intros reps. apply estimate_spec; [exact Hne | reflexivity].
+  intros Hne. exists (exp_closed rounds h c data anc reps). split; [apply experiment_kernel_closed; exact Hne|].
+  rewrite exp_cycle_length by exact Hne.
+  split; [apply cycle_len_pos; exact Hne|]. split; [apply estimate_cycle_length_closed; exact Hne|]. split; [|split].
+  - apply estimate_spec; [exact Hne | reflexivity].
   - intros size n. apply estimate_spec. exact Hne.
   - intros size Hs. destruct (estimate_experiment_repetitions rounds h c size) as [n|er] eqn:E.
     + apply estimate_spec in E; [|exact Hne]. exfalso. exact (Hs n E).
     + unfold estimate_experiment_repetitions in E. rewrite estimate_indexing_closed in E by exact Hne.
       destruct (RepetitionExperimentKernel_estimate_tail _ size); [discriminate | symmetry; exact E].
-  - intros -> data anc reps e He. apply experiment_kernel_inv in He. destruct He as [_ ->].
-    rewrite exp_cycle_length. unfold cycle_len, est_len. lia.
 Qed.
 
 (* ------------------------------------------------------------------ quirks recorded as (counter-)examples *)
-(* the experiment kernel always contains the calibration kernel, but estimate_experiment_repetitions drops it when the flag is
-   off: with the flag off the estimate does not invert repetitions x kernel_cycle_length *)
-Lemma estimate_vs_kernel_cycle_flag_off_refuted :
+(* HISTORY (finding F15, fixed): before the fix `indexing_kernels` was `repetition_kernels + [calibration_kernel]` whatever the flag.
+   old_kernel_cycle_length is that OLD definition, written out here; with the flag off the estimate did not invert
+   repetitions x old cycle length.  Nothing in the current code uses this definition. *)
+Definition old_kernel_cycle_length (e : RepetitionExperimentKernel) : Z :=
+  let iks := map RepetitionIndexKernel_as_IIndexingKernel (RepetitionExperimentKernel__repetition_kernels e)
+             ++ [QutritCalibrationIndexKernel_as_IIndexingKernel (RepetitionExperimentKernel__calibration_kernel e)] in
+  IIndexingKernel_stop_index (last iks IIndexingKernel_default) - IIndexingKernel_start_index (hd IIndexingKernel_default iks) + 1.
+
+Lemma old_definition_estimate_vs_kernel_cycle_flag_off_refuted :
   exists rounds h reps data anc e,
     experiment_kernel rounds h false data anc reps = Value e
-    /\ estimate_experiment_repetitions rounds h false (reps * RepetitionExperimentKernel_kernel_cycle_length e) <> Value reps.
+    /\ estimate_experiment_repetitions rounds h false (reps * old_kernel_cycle_length e) <> Value reps.
 Proof.
   exists [1], false, 2, [0], [1]. eexists. split; [reflexivity|]. vm_compute. discriminate.
 Qed.
@@ -929,7 +957,7 @@ Lemma experiment_stop_index_exclusive rounds h c data anc reps e :
 Proof.
   intros He. apply experiment_kernel_inv in He. destruct He as [Hne ->].
   cbv [RepetitionExperimentKernel_kernel_length RepetitionExperimentKernel_stop_index RepetitionExperimentKernel_experiment_repetitions].
-  rewrite exp_start, exp_cycle_length. cbn [exp_closed RepetitionExperimentKernel__repetitions]. lia.
+  rewrite exp_start, exp_cycle_length by exact Hne. cbn [exp_closed RepetitionExperimentKernel__repetitions]. lia.
 Qed.
 
 (* ------------------------------------------------------------------ non-vacuity: the suite's rounds list, heralded, two repetitions *)
@@ -946,6 +974,17 @@ Example example_experiment :
     /\ RepetitionExperimentKernel_get_projected_cycle_acquisition_indices e 10 0 = [[]; []]
     /\ estimate_experiment_repetitions [0; 3; 6; 2] true true 44 = Value 2
     /\ estimate_experiment_repetitions [0; 3; 6; 2] true true 45 = Raised AssertionError.
+Proof. eexists. split; [reflexivity|]. vm_compute. repeat split; reflexivity. Qed.
+
+(* no calibration points: the cycle is the repetition kernels only and the calibration getters are empty *)
+Example example_experiment_flag_off :
+  exists e, experiment_kernel [1; 2] true false [0] [10] 2 = Value e
+    /\ RepetitionExperimentKernel_kernel_cycle_length e = 5
+    /\ map IIndexingKernel_stop_index (RepetitionExperimentKernel_indexing_kernels e) = [1; 4]
+    /\ all_indices e 10 = zrange 0 10
+    /\ RepetitionExperimentKernel_get_heralded_calibration_acquisition_indices e 10 StateKey_STATE_0 = []
+    /\ RepetitionExperimentKernel_get_projected_calibration_acquisition_indices e 10 StateKey_STATE_2 = []
+    /\ estimate_experiment_repetitions [1; 2] true false 10 = Value 2.
 Proof. eexists. split; [reflexivity|]. vm_compute. repeat split; reflexivity. Qed.
 
 Example example_hypotheses : [0; 3; 6; 2] <> [] /\ NoDup [0; 3; 6; 2] /\ Forall (fun r => 0 <= r) [0; 3; 6; 2]
